@@ -25,7 +25,10 @@ RULE = (
     "layouts, doy vs month/day, year2, full / partial / no end fields, shared "
     "user placeholders in directory or file part), a handler (user "
     "FileHandler for bytes or pickled objects with reader/writer keyword "
-    "arguments; CSV or NetCDF4 chosen by typhon from .csv/.txt/.asc/.nc/.h5 or "
+    "arguments, given as module-level functions or as bound methods of a "
+    "format object with no / one named / two / **kwargs extra parameters, "
+    "optionally with an info method and a writer that refuses 'poison' data; "
+    "CSV or NetCDF4 chosen by typhon from .csv/.txt/.asc/.nc/.h5 or "
     "passed explicitly), a compression suffix (none .gz .bz2 .zip .xz), "
     "read_args / write_args / post_reader and a default worker type; a pool "
     "of contents (bytes, objects, CSV tables with int64/float64/str/bool "
@@ -44,7 +47,10 @@ RULE = (
     "and hold the handler output, every file reads back to the modelled value "
     "through its fileset, find reports written/moved files under their period "
     "with the modelled times and attributes, empty selections raise "
-    "NoFilesError and change nothing.  Non-trivial = a move or delete that "
+    "NoFilesError and change nothing; a write the handler refuses raises and "
+    "changes nothing; a converting move whose conversion or whose target "
+    "writer fails for some files raises, keeps the originals of those files "
+    "and leaves every other file readable under its old or its new name.  Non-trivial = a move or delete that "
     "affects at least one file after >= 2 writes.  Distinct = distinct case "
     "hash."
 )
